@@ -409,10 +409,14 @@ def check_effect(case, rec):
         out = ex(gt, gs, call)
         if out != R[win]:
             lay = {0: 'absent', 1: repr(v1), 2: repr(v2)}
-            rec.fail('precedence-via-expand:option-effect:%s' % key,
+            rec.fail('precedence-via-expand:%s-effect:%s' % (kind[:-1], key),
                      '%s/%s option %r: global-type layer %s, global-syntax layer %s, call %s → expand(%r%s) = %r, expected the output of the most specific layer (%s): %r'
                      % (typ, syntax, key, lay[gt], lay[gs], lay[call], abbr, ' + wrap text' if text else '', out, lay[win], R[win]))
             return
+    # a call whose layers do not mention the key is untouched by the calls before it that did
+    D2 = ex(0, 0, 0)
+    if D2 != D:
+        rec.fail('layer-value-outlives-its-call:%s' % kind, '%s/%s %s %r: expand(%r) without any caller layer gave %r before and %r after calls that defined the key' % (typ, syntax, kind, key, abbr, D, D2))
 
 
 def effect_cases():
@@ -438,7 +442,9 @@ def effect_cases():
             for text in (None, 'WT'):
                 yield {'kind': 'variables', 'type': 'markup', 'syntax': syn, 'key': key, 'v1': v1, 'v2': v2, 'abbr': abbr, 'fixed': {}, 'text': text, 'm1': m1, 'm2': m2}
     SNIPS = [('markup', 'zzs', 'em.a', 'strong.b', 'zzs', '<em class="a">', '<strong class="b">'), ('markup', 'a', 'a[href=q]', 'b', 'a', 'href="q"', '<b>'),
-             ('stylesheet', 'zzs', 'zz-prop:a|b', 'yy-prop:c', 'zzs', 'zz-prop: a', 'yy-prop: c'), ('stylesheet', 'm', 'max-zz:1', 'min-zz:2', 'm', 'max-zz: 1', 'min-zz: 2')]
+             ('stylesheet', 'zzs', 'zz-prop:a|b', 'yy-prop:c', 'zzs', 'zz-prop: a', 'yy-prop: c'),
+             # a user longhand that nests under a shipped shorthand: its keywords resolve through the shorthand only while that layer is present
+             ('stylesheet', 'bgx', 'background-extra:alpha|beta', 'background-extra:gamma|delta', 'bg:al', 'background: alpha', 'background: al'), ('stylesheet', 'm', 'max-zz:1', 'min-zz:2', 'm', 'max-zz: 1', 'min-zz: 2')]
     for typ, key, v1, v2, abbr, m1, m2 in SNIPS:
         for syn in (('html', 'xml', 'nosuch') if typ == 'markup' else ('css', 'scss', 'nosuch')):
             yield {'kind': 'snippets', 'type': typ, 'syntax': syn, 'key': key, 'v1': v1, 'v2': v2, 'abbr': abbr, 'fixed': {}, 'text': None, 'm1': m1, 'm2': m2}
